@@ -72,7 +72,7 @@ func init() {
 }
 
 var c15Behaviours = []string{"nothing", "model", "collection", "notfound", "invalidquery", "invalidquery-msg", "error-res", "error-plain", "error-nomsg", "error-nil", "events", "events-many", "timeout-then-model",
-	"panic-reserr", "panic-err", "panic-str", "panic-int", "panic-runtime", "panic-nil", "reply-twice", "panic-after-reply"}
+	"panic-reserr", "panic-err", "panic-str", "panic-int", "panic-runtime", "panic-nil", "reply-twice", "panic-after-reply", "panic-reserr-nil", "events-then-panic-nil"}
 
 type c15CB struct {
 	Seq   int64
@@ -166,6 +166,18 @@ func c15Behave(ev *c15Event, qr res.QueryRequest) {
 		}
 	case "panic-reserr":
 		panic(errRes)
+	case "panic-reserr-nil":
+		// panic(validate(q)) where the helper returns a nil *res.Error for "fine"
+		panic((*res.Error)(nil))
+	case "events-then-panic-nil":
+		if ev.typ == "model" {
+			qr.(interface {
+				ChangeEvent(map[string]interface{})
+			}).ChangeEvent(map[string]interface{}{"k": 1})
+		} else {
+			qr.(interface{ RemoveEvent(int) }).RemoveEvent(0)
+		}
+		panic(nil)
 	case "panic-err":
 		panic(errPlain)
 	case "panic-str":
@@ -639,7 +651,7 @@ func c15CheckResponse(c *core.Ctx, ev *c15Event, rq *c15Req, data []byte, desc m
 		if r.Result == nil || (ev.typ == "model" && r.Result.Model == nil) || (ev.typ == "collection" && r.Result.Collection == nil) {
 			bad("want the model/collection supplied by the callback")
 		}
-	case "collection", "panic-err", "panic-str", "panic-int", "panic-runtime", "panic-nil", "error-plain", "error-nil":
+	case "collection", "panic-err", "panic-str", "panic-int", "panic-runtime", "panic-nil", "error-plain", "error-nil", "panic-reserr-nil", "events-then-panic-nil":
 		if code != "system.internalError" {
 			bad("want system.internalError")
 		}
